@@ -65,16 +65,17 @@ def make_isotherm(spec):
             return pygaps.PointIsotherm(
                 pressure=list(spec["pressure"]), loading=list(spec["loading"]),
                 branch=(list(branch) if isinstance(branch, list) else branch), **common)
-        cols = {"pressure": list(spec["pressure"]), "loading": list(spec["loading"])}
+        pk, lk = spec.get("keys", ["pressure", "loading"])
+        cols = {pk: list(spec["pressure"]), lk: list(spec["loading"])}
         for k, v in other.items():
             cols[k] = list(v)
         if isinstance(branch, list) and spec.get("branch_in_frame", False):
             cols["branch"] = list(branch)
             df = pandas.DataFrame(cols)
-            return pygaps.PointIsotherm(isotherm_data=df, pressure_key="pressure", loading_key="loading", **common)
+            return pygaps.PointIsotherm(isotherm_data=df, pressure_key=pk, loading_key=lk, **common)
         df = pandas.DataFrame(cols)
         return pygaps.PointIsotherm(
-            isotherm_data=df, pressure_key="pressure", loading_key="loading",
+            isotherm_data=df, pressure_key=pk, loading_key=lk,
             branch=(list(branch) if isinstance(branch, list) else branch), **common)
     if kind == "model":
         if "fit" in spec:
